@@ -10,11 +10,14 @@
 package main
 
 import (
+	"bytes"
 	"encoding/json"
 	"flag"
 	"fmt"
 	"go/ast"
 	"go/constant"
+	"go/printer"
+	"go/token"
 	"go/types"
 	"math/rand"
 	"os"
@@ -182,6 +185,9 @@ type siteFacts struct {
 	SrcX   string `json:"src_x"`
 	SrcY   string `json:"src_y"`
 	SrcM   string `json:"src_m"`
+	// column 0 only: the byte extents of the three nodes and what go/printer makes of them (computed here, not by the engine)
+	Ext   []int    `json:"ext,omitempty"`   // from_x to_x from_y to_y from_m to_m
+	Print []string `json:"print,omitempty"` // x y m
 }
 
 func valOf(t *hutil.Target, sizes types.Sizes, e ast.Expr) val {
@@ -414,8 +420,9 @@ type ruleCase struct {
 	Values     map[string]string `json:"values,omitempty"`
 	// MayRefuse: a literal of the group's macro body is not a decimal number / a plainly quoted string: the group means the
 	// literal's Go value or is refused at load. Left: refused alone, so left out of the family's common engine.
-	MayRefuse bool `json:"may_refuse,omitempty"`
-	Left      bool `json:"left_out,omitempty"`
+	MayRefuse bool      `json:"may_refuse,omitempty"`
+	Lits      []litInfo `json:"lits,omitempty"` // the literals of the macro body: token kind, spelling, Go value
+	Left      bool      `json:"left_out,omitempty"`
 	d         *filt.DExpr
 	whereSrc  string // the Where() argument as written, when it is not d.Go() (a call of a group-local macro)
 	solo      bool   // run in its own engine (may panic or may fail to load)
@@ -606,7 +613,8 @@ func spellInt(z int64, style int, rng *rand.Rand) string {
 			k := 1 + rng.Intn(len(d)-1)
 			return d[:k] + "_" + d[k:]
 		}
-		return []string{"0x_", "0_", "0o_", "0b_"}[rng.Intn(4)] + map[bool]string{true: strconv.FormatInt(z, 2), false: strconv.FormatInt(z, 8)}[z < 2]
+		k := rng.Intn(4)
+		return []string{"0x_", "0_", "0o_", "0b_"}[k] + strconv.FormatInt(z, []int{16, 8, 8, 2}[k])
 	case 6:
 		switch {
 		case z >= 32 && z < 127 && z != '\'' && z != '\\' && rng.Intn(3) > 0:
@@ -651,9 +659,16 @@ func spellStr(v string, style int) string {
 	return strconv.Quote(v)
 }
 
+type litInfo struct {
+	Kind  string `json:"kind"` // INT CHAR STRING
+	Lit   string `json:"lit"`
+	Int   *int64 `json:"int,omitempty"`
+	Plain bool   `json:"plain"`
+}
+
 // respell: the instantiated tree with every constant written as a literal in a style of pick's choosing; spelled receives
 // name -> literal for the constants that came from a name. plain: every literal is decimal resp. plainly quoted.
-func respell(d *filt.DExpr, rng *rand.Rand, pick func(isStr bool) int, spelled map[string]string) (out *filt.DExpr, plain bool) {
+func respell(d *filt.DExpr, rng *rand.Rand, pick func(isStr bool) int, spelled map[string]string, lits *[]litInfo) (out *filt.DExpr, plain bool) {
 	if d == nil {
 		return nil, true
 	}
@@ -664,9 +679,25 @@ func respell(d *filt.DExpr, rng *rand.Rand, pick func(isStr bool) int, spelled m
 		if d.K == "int" {
 			lit = spellInt(d.Z, pick(false), rng)
 			plain = lit == strconv.FormatInt(d.Z, 10)
+			kind, tok := "INT", token.INT
+			if lit[0] == '\'' {
+				kind, tok = "CHAR", token.CHAR
+			}
+			// the value by construction must be the value Go gives the literal
+			if v, ok := constant.Int64Val(constant.ToInt(constant.MakeFromLiteral(lit, tok, 0))); !ok || v != d.Z {
+				fmt.Fprintf(os.Stderr, "literal %s does not have the value %d\n", lit, d.Z)
+				os.Exit(3)
+			}
+			z := d.Z
+			*lits = append(*lits, litInfo{Kind: kind, Lit: lit, Int: &z, Plain: plain})
 		} else {
 			lit = spellStr(d.S, pick(true))
 			plain = lit == strconv.Quote(d.S)
+			if v := constant.MakeFromLiteral(lit, token.STRING, 0); v.Kind() != constant.String || constant.StringVal(v) != d.S {
+				fmt.Fprintf(os.Stderr, "literal %s does not have the value %q\n", lit, d.S)
+				os.Exit(3)
+			}
+			*lits = append(*lits, litInfo{Kind: "STRING", Lit: lit, Plain: plain})
 		}
 		if d.Raw != "" {
 			spelled[d.Raw] = lit
@@ -675,13 +706,13 @@ func respell(d *filt.DExpr, rng *rand.Rand, pick func(isStr bool) int, spelled m
 		return &c, plain
 	}
 	var p bool
-	c.X, p = respell(d.X, rng, pick, spelled)
+	c.X, p = respell(d.X, rng, pick, spelled, lits)
 	plain = plain && p
-	c.Y, p = respell(d.Y, rng, pick, spelled)
+	c.Y, p = respell(d.Y, rng, pick, spelled, lits)
 	plain = plain && p
 	c.Args = nil
 	for _, a := range d.Args {
-		ra, p := respell(a, rng, pick, spelled)
+		ra, p := respell(a, rng, pick, spelled, lits)
 		plain = plain && p
 		c.Args = append(c.Args, ra)
 	}
@@ -836,6 +867,9 @@ func main() {
 	var respelled []respelt // captures whose Text is not their source spelling
 	for _, tg := range tgts {
 		t := tg.t
+		// the bytes the file system holds at the target's path
+		disk, _ := os.ReadFile(t.Path)
+		enc.Encode(map[string]interface{}{"k": "file", "target": tg.name, "first_site": tg.base, "sites": len(tg.specs), "disk": string(disk)})
 		for j := 0; j < W; j++ {
 			for _, s := range tg.byJ[j] {
 				x, y := s.Call.Args[0], s.Call.Args[1]
@@ -850,6 +884,17 @@ func main() {
 					Target: tg.name, SrcX: filt.Text(t, x), SrcY: filt.Text(t, y), SrcM: filt.Text(t, s.Call)}
 				for _, r := range s.Call.Args[2:] {
 					f.Rest = append(f.Rest, valOf(t, sizes, r))
+				}
+				if j == 0 {
+					for _, n := range []ast.Node{x, y, s.Call} {
+						f.Ext = append(f.Ext, t.Fset.Position(n.Pos()).Offset, t.Fset.Position(n.End()).Offset)
+						var buf bytes.Buffer
+						if err := printer.Fprint(&buf, t.Fset, n); err != nil {
+							fmt.Fprintln(os.Stderr, "go/printer:", err)
+							os.Exit(3)
+						}
+						f.Print = append(f.Print, buf.String())
+					}
 				}
 				enc.Encode(f)
 				factsAt[[2]int{f.I, j}] = f
@@ -1170,6 +1215,7 @@ func main() {
 			whereSrc := ""
 			spelled := map[string]string{}
 			plain := true
+			var lits []litInfo
 			if macro {
 				// (irconv cannot see constant values of identifiers inside a macro body: the body spells the literals)
 				d, plain = respell(d, rng, func(isStr bool) int {
@@ -1184,7 +1230,7 @@ func main() {
 						return 0
 					}
 					return 1 + rng.Intn(nIntStyles-1)
-				}, spelled)
+				}, spelled, &lits)
 				body := strings.NewReplacer(`m["x"]`, "x", `m["y"]`, "y", `m["zs"]`, "zs").Replace(d.Go())
 				locals = "\tcond := func(x, y, zs dsl.Var) bool { return " + body + " }\n"
 				whereSrc = `cond(m["x"], m["y"], m["zs"])`
@@ -1195,7 +1241,7 @@ func main() {
 			}
 			c := &ruleCase{K: "rule", Idx: len(cases), Family: fam, Role: fmt.Sprintf("g%d", k), Src: d.Go(), Coq: d.Coq(), Atom: -1, d: d, whereSrc: whereSrc,
 				Accept: []int{}, Locals: locals, FileNo: fileNo, FileConsts: sf.fileSrc[fileNo], Tree: oracleTree(d, atomIndex),
-				Values: map[string]string{}, wantJ: j, group: "shared", solo: false, MayRefuse: !plain}
+				Values: map[string]string{}, wantJ: j, group: "shared", solo: false, MayRefuse: !plain, Lits: lits}
 			for n, v := range vals {
 				c.Values[n] = v.golit()
 				if lit, ok := spelled[n]; ok && lit != v.golit() {
